@@ -476,8 +476,12 @@ class Gen:
     def g_typeddict(self, d):
         n = self.pool.fresh("T"); fs = self._fields(d, "typeddict")
         total = self.rnd.random() < 0.5
-        for f in fs: f["required"] = total
-        lines = [f"class {n}(TypedDict, total={total}):"] + [f"    {f['name']}: {f['ty'].py}" for f in fs]
+        for f in fs:
+            f["required"] = total
+            # an aliased key: the Python dict is keyed by the name, the data by the alias
+            if self.rnd.random() < 0.25: f["alias"] = f["name"].upper() + "_al"
+        lines = [f"class {n}(TypedDict, total={total}):"] + [
+            f"    {f['name']}: " + (f['ty'].py if f["alias"] == f["name"] else f"Annotated[{f['ty'].py}, alias({f['alias']!r})]") for f in fs]
         if not fs: lines.append("    pass")
         self.pool.add(lines)
         return self._obj_node("typeddict", n, fs, raw=False, decl=lines)
